@@ -71,9 +71,9 @@ CHECKS = {
     ),
     "C17": dict(
         level="fault_enumeration",
-        text="Seeded histories over one worklist object and one real scratch directory (appends of every record type incl. Latin-1 text, save to str/Path, repeated saves with growing and shrinking content, clear, with-blocks entered on non-empty worklists and left by rejections or injected interrupts, hostile pre-existing files); for every save()/__exit__ of a program every robotools source line inside it is in turn the point of an injected exception, followed by a recovery save that must repair the file. File bytes are compared with CRLF-joined Latin-1 records. Sampling over programs, enumeration over crash points inside save/__exit__.",
-        note="Trusted: the real file system as ground truth (no patched open); OS-level I/O errors are not injected; nothing is claimed about the file of an aborted save, only about the recovery save.",
-        technique="deterministic simulation + fault injection: real file system scratch dirs, hostile disk pre-states, line-level interrupt enumeration inside save/__exit__ with recovery",
+        text="Seeded histories over one worklist object and one real scratch directory (appends of every record type incl. Latin-1 text, save to str/Path, repeated saves with growing and shrinking content, clear, with-blocks entered on non-empty worklists and left by rejections or injected interrupts, hostile pre-existing files); for every save()/__exit__ of a program every robotools source line inside it is in turn the point of an injected exception, followed by a recovery save that must repair the file; every save()/__exit__ is also run with the disk filling up after L bytes (RLIMIT_FSIZE: the kernel cuts the write short and fails it with EFBIG; L = 0, 1, half, all but one byte): a save that returns normally must still have written exactly the records - a swallowed write error is silent data loss - and a recovery save follows. File bytes are compared with CRLF-joined Latin-1 records. Sampling over programs, enumeration over crash points inside save/__exit__.",
+        note="Trusted: the real file system as ground truth (no patched open); the only OS-level I/O error injected is a full disk (EFBIG after L bytes, any write API); nothing is claimed about the file of an aborted or failed save, only that the failure is not hidden and that the recovery save repairs it.",
+        technique="deterministic simulation + fault injection: real file system scratch dirs, hostile disk pre-states, line-level interrupt enumeration inside save/__exit__ with recovery, kernel-level disk-full (short write + EFBIG) injection",
         ref="DESIGN.md section 5 / C17",
     ),
 }
